@@ -211,7 +211,8 @@ fn run_case(c: &Case) -> Result<u64, String> {
                     i += 1;
                 }
             }
-            while i < own.len() && own[i].starts_with("H:") {
+            // at most one handler call per bracket
+            if i < own.len() && own[i].starts_with("H:") {
                 handlers += 1;
                 i += 1;
             }
